@@ -230,7 +230,9 @@ def r16_1(ctx, cg, rc):
                     detail = ('result of %s() is assigned to `%s` but overwritten or '
                               'abandoned at %s before being tested' % (
                                   name, use[1], f.loc(at) if at is not None else '?'))
-            txt = f.show_sym(c)[:70]
+            # the instance is "the k-th call of <callee> in <function>": stable under
+            # renames of the variables that appear in the arguments
+            txt = name
             idx = occ.setdefault((f.name, txt), [0])
             idx[0] += 1
             key = '%s:%s%s' % (f.name, txt, ('#%d' % idx[0]) if idx[0] > 1 else '')
@@ -310,8 +312,14 @@ def _action_exit_block(f, node):
     return None
 
 
-def null_discipline(f, key, start_node, is_local):
+def null_discipline(f, key, start_node, is_local, alloc_call=None):
     """explore from the store; returns (ok, node, what)"""
+    from .C14 import canon as _canon
+    size_args = set()
+    if alloc_call is not None:
+        for a_ in f.call_args(alloc_call):
+            if cu.const_of(cu.strip_casts(f, a_)) is None:
+                size_args.add(_canon(f, a_))
     nb = f.block_of(start_node)
     if nb is None:
         return True, None, ''
@@ -359,12 +367,28 @@ def null_discipline(f, key, start_node, is_local):
         return facts
 
     region_exit = _action_exit_block(f, start_node)
-    ct = paths.CondTracker(f)
+    ct = paths.CondTracker(f, extra=[key] if not is_local else [])
 
     def edge(b, term, cond, idx, succ, facts):
         facts = ct.on_edge(term, cond, idx, facts)
         if facts is None:
             return None
+        # learned through a boolean that stands for the test of the slot
+        if any(isinstance(x, tuple) and len(x) == 3 and x[0] in ('eq', 'ne') and x[1] == key and x[2] == 0
+               for x in facts):
+            return None
+        # nothing was asked for: on the edge where the requested count is zero there is
+        # nothing to test
+        if size_args:
+            pol0 = paths.branch_polarity(f, term, idx)
+            if pol0 is not None and cond is not None:
+                c0, p0 = paths.normalise_cond(f, cond, pol0)
+                if c0 is not None and c0['k'] == 'bin' and c0['op'] in ('==', '!=', '>', '<='):
+                    l0, r0 = f.kid(c0, 0), f.kid(c0, 1)
+                    if _canon(f, l0) in size_args and cu.const_of(cu.strip_casts(f, r0)) == 0:
+                        zero = (c0['op'] in ('==', '<=')) == p0
+                        if zero:
+                            return None
         if region_exit is not None and succ == region_exit:
             if not is_local:
                 found.append((start_node, 'stored in %s and never tested for NULL '
@@ -427,7 +451,7 @@ def r16_2(ctx, allocs):
                            'ret': 'returned to the caller', 'tested': 'tested in place',
                            'other': 'passed on'}[h[0]]))
                 continue
-            ok, at, what = null_discipline(f, h[1], h[2], h[3])
+            ok, at, what = null_discipline(f, h[1], h[2], h[3], c)
             ctx.ob('R16.2', key, ok, f.loc(at) if at is not None else f.loc(c),
                    'result of %s() %s' % (c['callee'], what) if not ok else
                    'result of %s() is tested for NULL before use' % c['callee'])
@@ -795,8 +819,14 @@ def r16_4(ctx, cg, rc, allocs):
                                 if v is not None and v['k'] == 'ref' and v.get('dk') == 'local':
                                     acqs.append((n, v['name'], 'out', None))
         for node, var, kind, _ in acqs:
-            if (f.name, var) in OWNERSHIP_EXCEPTIONS:
-                reason, side = OWNERSHIP_EXCEPTIONS[(f.name, var)]
+            # an exception names the function and the variable as spelled when it was
+            # confirmed; it applies to the (only) local of that function that owns the
+            # result of an allocator call, however it is spelled now
+            exc = [k for k in OWNERSHIP_EXCEPTIONS if k[0] == f.name]
+            if exc and kind == 'ptr' and (exc[0][1] == var or
+                                          sum(1 for a_ in acqs if a_[2] == 'ptr') == 1):
+                reason, side = OWNERSHIP_EXCEPTIONS[exc[0]]
+                var = exc[0][1]
                 ok = side(ctx, cg)
                 ctx.ob('R16.4', '%s:%s:contract' % (f.name, var), ok, f.loc(node),
                        'exception: %s — side condition %s' % (
@@ -813,13 +843,37 @@ def r16_4(ctx, cg, rc, allocs):
     ctx.count('owning_locals', n_owned)
 
 
-def ownership(ctx, f, acq, var, kind, cg, esc, fal):
+def _is_push_front(f, assign, var, head):
+    """`head = var` completes a push in front of a list: `var-><link> = head` was
+    assigned in the same statement list before it"""
+    par = f.parent(assign)
+    while par is not None and par['k'] not in ('compound',):
+        par = f.parent(par)
+    if par is None:
+        return False
+    for st in f.kids(par):
+        if st is assign or any(x is assign for x in f.walk(st)):
+            break
+        for x in f.walk(st):
+            if x['k'] == 'bin' and x['op'] == '=':
+                l = cu.strip_casts(f, f.kid(x, 0))
+                r = cu.strip_casts(f, f.kid(x, 1))
+                if l is not None and l['k'] == 'member' and l.get('arrow') and r is not None and \
+                        r['k'] == 'ref' and r['name'] == head:
+                    b = cu.strip_casts(f, f.kid(l, 0))
+                    if b is not None and b['k'] == 'ref' and b['name'] == var:
+                        return True
+    return False
+
+
+def ownership(ctx, f, acq, var, kind, cg, esc, fal, _depth=0):
     prog = ctx.prog
     nb = f.block_of(acq)
     if nb is None:
         return True, None, ''
     b0, i0 = nb
     found = []
+    handed = set()
     established = [False]
     ct = paths.CondTracker(f, extra=[var])
 
@@ -899,6 +953,18 @@ def ownership(ctx, f, acq, var, kind, cg, esc, fal):
             r = f.kid(n, 1)
             l = f.kid(n, 0)
             if is_var(r) and l is not None:
+                # `other = var`: another local takes the resource over (a list head that
+                # the new node was just linked in front of): it is that local's to release
+                # or hand over from here on
+                ll = cu.strip_casts(f, l)
+                if owned and ll is not None and ll['k'] == 'ref' and ll.get('dk') == 'local' and \
+                        ll['name'] != var and '*' in (ll.get('t') or '') and _depth < 2 and \
+                        n['i'] not in handed and _is_push_front(f, n, var, ll['name']):
+                    handed.add(n['i'])
+                    ok2, at2, what2 = ownership(ctx, f, n, ll['name'], 'ptr', cg, esc, fal, _depth + 1)
+                    if not ok2:
+                        found.append((at2 if at2 is not None else n,
+                                      '(taken over by `%s` at %s) %s' % (ll['name'], f.loc(n), what2)))
                 return release(facts)           # stored or aliased
             if l is not None and l['k'] == 'ref' and l['name'] == var and n is not acq:
                 if owned:
